@@ -62,12 +62,15 @@ func (g *Gen) txEth(kind string, hostile bool) STx {
 	default:
 		panic("unknown kind " + kind)
 	}
+	if g.G.Erc20 && (kind == "ETH_LOCK" || kind == "ETH_REDEEM" || kind == "ETH_REPORT") {
+		t.A["erc"] = 1 // the ERC20 side: token transfers and the token's wrapped currency
+	}
 	return g.finish(t, hostile && g.hclass != "amt" && g.hclass != "cur")
 }
 
 func familyEth(family, id string, g *Gen, blocks, maxTx int) *Scenario {
 	switch family {
-	case "eth", "eth5":
+	case "eth", "eth5", "erc20":
 		g.Hostile = 0.1
 		return g.Mixed(id, blocks, maxTx+2, EthKinds)
 	}
